@@ -1,3 +1,3 @@
-import Infretis.Model.RepexProto
+import Infretis.Model.RepexC03Proto
 
-def main : IO Unit := Infretis.Repex.repexMain
+def main : IO Unit := Infretis.Repex.Micro.c03Main
